@@ -152,8 +152,10 @@ WellFormed(V) ==
 
 \* ---- one representative per isomorphism class (node permutations x relation permutations)
 Bijections(S) == {f \in [S -> S] : \A a, b \in S : f[a] = f[b] => a = b}
-CodePerms == {[x \in Codes |-> Enc(pn[Src(x)], pn[Dst(x)], pr[Rel(x)], IsDead(x))] :
-                  <<pn, pr>> \in Bijections(Nodes) \X Bijections(Rels)}
+\* (only needed, and only computed, when the family is generated: TLC evaluates constant definitions up front)
+CodePerms == IF ~Grow THEN {}
+             ELSE {[x \in Codes |-> Enc(pn[Src(x)], pn[Dst(x)], pr[Rel(x)], IsDead(x))] :
+                      <<pn, pr>> \in Bijections(Nodes) \X Bijections(Rels)}
 MinOf(S) == CHOOSE x \in S : \A y \in S : x <= y
 MaxOf(S) == CHOOSE x \in S : \A y \in S : x >= y
 \* g is the lexicographically least (as an ascending code sequence) graph of its class.  For
